@@ -18,7 +18,10 @@ delta = max|love - love_tight| > 1e-6 or either solve is unsuccessful.
                   sliver between an interface and the next slice is part of the model)
  R6 reciprocity : k_load = k_tidal - h_tidal from one ('tidal','loading') solve
 
-Tolerance for R1,R2,R4,R5,R6: 5e-6 + 100 delta on the O(1) Love numbers (observed 2e-8..1e-6 at rtol 1e-9).
+Tolerance for R1,R2,R4,R5,R6: 5e-6 + 100 (delta + delta_partner) on the O(1) Love numbers (observed 2e-8..1e-6 at rtol
+1e-9); the partner run's own convergence error delta_partner is measured the same way (an absolute tolerance means
+something else in other units: R1 differed by 1.8e-5 at delta = 1.4e-8 in one stack), partner runs with
+delta_partner > 1e-6 are not compared.
 Non-trivial = >= 2 layers and at least R1 or R2 evaluated.
 
 Sensitivity (generated C, tools/mut.py): nondimensional.c wrong exponent in redimensionalisation, loading constant
@@ -141,12 +144,19 @@ def evaluate(case):
     tol = TOL0 + 100.0 * delta
     c = Collector(labels, nontrivial=len(ks) >= 2)
 
-    def compare(rel, sol, extra=0.0, detail=''):
-        if not sol.success:
+    def compare(rel, sol, extra=0.0, detail='', tight=None):
+        if not sol.success or (tight is not None and not tight.success):
             c.label(rel + ':partner_failed')
             return
-        c.label(rel)
         L = _love(sol)[0]
+        if tight is not None:
+            # the partner run has its own convergence error (e.g. atol means something else in other units)
+            dp = float(np.max(np.abs(L[comp] - _love(tight)[0][comp])))
+            if not np.isfinite(dp) or dp > 1e-6:
+                c.label(rel + ':partner_unconverged')
+                return
+            extra = extra + 100.0 * dp
+        c.label(rel)
         d = float(np.max(np.abs(L[comp] - L0[comp])))
         c.check(np.isfinite(d) and d <= tol + extra, {'clause': rel},
                 '%s: love %r vs base %r, |diff| %.3e tol %.3e (delta %.2e) %s' % (rel, L.tolist(), L0.tolist(), d, tol + extra, delta, detail))
@@ -154,8 +164,9 @@ def evaluate(case):
     # R1 ---------------------------------------------------------------------------------------------------------
     with repo_call('radial_solver[R1]'):
         s1, _ = rc.solve(spec, nondim=not spec['opts']['nondim'], **tidal_only)
-    compare('R1', s1)
-    if s1.success:
+        s1t, _ = rc.solve(spec, nondim=not spec['opts']['nondim'], rtol=rtol / TIGHT, atol=rtol * 1e-4 / TIGHT, **tidal_only)
+    compare('R1', s1, tight=s1t)
+    if s1.success and 'R1' in c.labels:
         # the radial functions themselves (observed at the slices that are end points of an integration: first and
         # last slice of every layer) must not depend on the internal non-dimensionalisation either
         ra, rb = np.array(s0.result), np.array(s1.result)
@@ -182,7 +193,8 @@ def evaluate(case):
                                                 for L in spec['layers']])
     with repo_call('radial_solver[R2]'):
         s2, _ = rc.solve(spec2, **tidal_only)
-    compare('R2', s2, detail='a=%r' % a)
+        s2t, _ = rc.solve(spec2, rtol=rtol / TIGHT, atol=rtol * 1e-4 / TIGHT, **tidal_only)
+    compare('R2', s2, detail='a=%r' % a, tight=s2t)
     # R3 ---------------------------------------------------------------------------------------------------------
     with repo_call('radial_solver[R3]'):
         s3, _ = rc.solve(spec, solve_for=tuple(sf))
@@ -226,7 +238,8 @@ def evaluate(case):
     # R5 ---------------------------------------------------------------------------------------------------------
     with repo_call('radial_solver[R5]'):
         s5, _ = rc.solve(spec, arrays=_refine(A), **tidal_only)
-    compare('R5', s5)
+        s5t, _ = rc.solve(spec, arrays=_refine(A), rtol=rtol / TIGHT, atol=rtol * 1e-4 / TIGHT, **tidal_only)
+    compare('R5', s5, tight=s5t)
     # R6 ---------------------------------------------------------------------------------------------------------
     if not static_liquid_surface:
         with repo_call('radial_solver[R6]'):
